@@ -206,6 +206,36 @@ def snapshot(ctx):
     return (dict(ctx.locals), list(ctx.localStack), list(ctx.repeatStack), dict(ctx.repeatMap), g)
 
 
+INLINE_TEMPLATES = [
+    '<div tal:define="v1 s1" tal:content="structure tpl">x</div><i tal:content="v1 | string:restored">y</i>',
+    '<ul><li tal:repeat="it seq2" tal:define="v1 it" tal:content="structure tpl">x</li></ul><i tal:content="v1 | it | string:restored">y</i>',
+    '<div tal:define="v1 s1"><p tal:define="v2 s2" tal:replace="structure tpl">x</p><b tal:content="v2 | string:v2-gone">z</b></div><i tal:content="v1 | string:restored">y</i>',
+]
+
+
+def check_inline(template):
+    """A compiled Template object in the context, expanded inline by `structure`."""
+    globs = c17.make_globals()
+    inner = simpleTAL.compileHTMLTemplate('<b tal:define="w1 s1" tal:content="w1">inner</b>')
+    t = simpleTAL.compileHTMLTemplate(template)
+    ctx = simpleTALES.Context()
+    for k, v in globs.items():
+        ctx.addGlobal(k, v)
+    ctx.addGlobal("tpl", inner)
+    before = snapshot(ctx)
+    out = io.StringIO()
+    try:
+        t.expand(ctx, out)
+    except Exception as e:  # noqa
+        return ("exception", "%s: %s" % (type(e).__name__, e))
+    after = snapshot(ctx)
+    if before[:4] != after[:4]:
+        return ("context-not-restored", "after expanding %r (a Template object expanded inline) the context is %r, it was %r" % (template, after[:4], before[:4]))
+    if "restored" not in out.getvalue() or "v2-gone" not in out.getvalue() and "v2 |" in template:
+        return ("local-leaked", "a local defined on the element that inlines a Template is still visible after it: %r" % out.getvalue())
+    return None
+
+
 def check_restore(template):
     globs = c17.make_globals()
     t = simpleTAL.compileHTMLTemplate(template)
@@ -280,7 +310,13 @@ def _shard(shard, seed, tier):
     part = core.Partial()
     kind, items = shard
     for item in items:
-        if kind == "gate":
+        if kind == "inline":
+            bad = check_inline(item)
+            part.state("inline", item)
+            part.outcome("inline", bad[0] if bad else "")
+            key = "inline|%s" % item
+            case = {"kind": "inline", "template": item}
+        elif kind == "gate":
             bad = check_gate_history(item)
             part.state("gate", item)
             part.outcome("gate", item[-1], bad[0] if bad else "")
@@ -333,6 +369,8 @@ def replay(case):
         return check_doc(case["doc"])
     if case["kind"] == "gate":
         return check_gate_history(tuple(case["hist"]))
+    if case["kind"] == "inline":
+        return check_inline(case["template"])
     return check_restore(case["template"])
 
 
@@ -344,7 +382,7 @@ def run(ck):
     if ck.tier == "quick":
         ctx_t = ctx_t[::3] + c17.nested_templates(ck.tier) + c17.metal_templates()
     gates = [h for n in (1, 2, 3) for h in itertools.product(GATE_SETTINGS[:3] if n == 3 else GATE_SETTINGS, repeat=n)]
-    shards = [("gate", ch) for ch in core.chunks(gates, 8)] + [("esc", ch) for ch in core.chunks(esc, core.NPROC)] + [("py", list(range(len(PY_POSITIONS))))] + [("doc", ch) for ch in core.chunks(dl, core.NPROC)] + [("ctx", ch) for ch in core.chunks(ctx_t, core.NPROC * 2)]
+    shards = [("inline", INLINE_TEMPLATES)] + [("gate", ch) for ch in core.chunks(gates, 8)] + [("esc", ch) for ch in core.chunks(esc, core.NPROC)] + [("py", list(range(len(PY_POSITIONS))))] + [("doc", ch) for ch in core.chunks(dl, core.NPROC)] + [("ctx", ch) for ch in core.chunks(ctx_t, core.NPROC * 2)]
     p = ck.pmap(_shard, shards)
     nb = p.extra.get("python_positions_not_biting", 0)
     if nb:
